@@ -49,8 +49,8 @@ fn gamma(a: Decimal) -> Option<Decimal> {
         s = s.checked_add(Decimal::new(4633994733599056367, 24).checked_div(Decimal::new(9, 0).checked_sub(a)?)?)?;
         s = s.checked_add(Decimal::new(-2719949084886077039, 27).checked_div(Decimal::new(10, 0).checked_sub(a)?)?)?;
         let compute_sin = Decimal::new(3141592653589793238, 18).checked_mul(a)?.checked_sin()?; // 3.14159265358979323846264338327950288419716939937510582
-        let compute_pow = a
-            .checked_sub(Decimal::new(10400511, 6))?
+        let compute_pow = Decimal::new(11400511, 6)
+            .checked_sub(a)?
             .checked_div(Decimal::new(2718281828459045235, 18))?
             .checked_powd(Decimal::new(5, 1).checked_sub(a)?)?;
         Decimal::new(3141592653589793238, 18).checked_div(
